@@ -32,6 +32,28 @@ class C01(SCheck):
                 ln, runs = gen.sparse_layout(r, max_runs=4)
                 ops.append(gen.f_op("src/" + name, ln, runs=runs))
                 size = ln
+                if r.random() < 0.6:
+                    # previous destination with data exactly where the source has holes
+                    holes = []
+                    pos = 0
+                    for a, l, _ in runs:
+                        if a - pos >= 8192:
+                            holes.append((pos, a))
+                        pos = a + l
+                    if ln - pos >= 8192:
+                        holes.append((pos, ln))
+                    pruns = []
+                    for (a, b) in r.sample(holes, min(len(holes), 2)):
+                        start = (a + 4096 * r.randrange(0, max(1, (b - a) // 4096 - 1))) & ~4095
+                        plen = min(b - start, 4096 * r.randrange(1, 9))
+                        if plen > 0:
+                            pruns.append([start, plen, r.randrange(1, 1 << 30)])
+                    pruns.sort()
+                    plen_total = r.choice([ln, ln + 4096, max(x[0] + x[1] for x in pruns) if pruns else ln])
+                    if pruns:
+                        pruns = [x for x in pruns if x[0] + x[1] <= plen_total]
+                        ops.append(gen.f_op("dst/" + name, plen_total, runs=pruns))
+                    continue
             else:
                 size = gen.boundary_size(r, bs, M, cap)
                 ops.append(gen.f_op("src/" + name, size, pat=r.randrange(1, 1 << 30)))
